@@ -464,6 +464,52 @@ impl<'a, 'tcx> Visitor<'tcx> for BV<'a, 'tcx> {
                 let s = format!("[\"constref\",{},{}]", esc(&cname(self.tcx, uv.def)), self.line(c.span));
                 self.push(loc.block, s);
             }
+            // a promoted temporary (`&CONST`, `&[f, g]`, …): its body is not dumped on its own, so the named constants,
+            // statics and functions it mentions are attributed to the use site
+            if let Some(p) = uv.promoted {
+                if uv.def.is_local() {
+                    let promoted = self.tcx.promoted_mir(uv.def);
+                    if let Some(body) = promoted.get(p) {
+                        let mut found: Vec<String> = Vec::new();
+                        struct PV<'a, 'tcx> {
+                            tcx: TyCtxt<'tcx>,
+                            out: &'a mut Vec<String>,
+                            line: usize,
+                        }
+                        impl<'a, 'tcx> Visitor<'tcx> for PV<'a, 'tcx> {
+                            fn visit_const_operand(&mut self, c: &mir::ConstOperand<'tcx>, _loc: Location) {
+                                if let ty::FnDef(did, _) = c.const_.ty().kind() {
+                                    self.out.push(format!("[\"fnref\",{},{}]", esc(&cname(self.tcx, *did)), self.line));
+                                }
+                                if let mir::Const::Unevaluated(uv, _) = c.const_ {
+                                    if interesting_crate(self.tcx, uv.def) && uv.promoted.is_none() {
+                                        self.out.push(format!(
+                                            "[\"constref\",{},{}]",
+                                            esc(&cname(self.tcx, uv.def)),
+                                            self.line
+                                        ));
+                                    }
+                                }
+                                if let Some(did) = c.check_static_ptr(self.tcx) {
+                                    if interesting_crate(self.tcx, did) {
+                                        self.out.push(format!(
+                                            "[\"staticref\",{},{}]",
+                                            esc(&cname(self.tcx, did)),
+                                            self.line
+                                        ));
+                                    }
+                                }
+                            }
+                        }
+                        let line = self.line(c.span);
+                        let mut pv = PV { tcx: self.tcx, out: &mut found, line };
+                        pv.visit_body(body);
+                        for s in found {
+                            self.push(loc.block, s);
+                        }
+                    }
+                }
+            }
         }
         if let Some(did) = c.check_static_ptr(self.tcx) {
             if interesting_crate(self.tcx, did) {
